@@ -94,6 +94,7 @@ contract(TB, 'TypeBlocks.ufunc_axis_skipna',
     lenient=True, lenient_protect=['pos', 'end', 'axis'],
     requires=['Dir(self)', 'RowDtypeHolds(self)'],
     raises={'RuntimeError': 'axis < 0 or axis > 1', 'Exception': 'maybe'},
+    call_ghosts={'TypeBlocks._blocks_to_array': dict(offs='self._offs')},
     # ASSUMED (NumPy): astype returns a new array of the same shape
     calls={'ndarray.astype': dict(assumed=True, params=dict(dtype='dtype'), order=['dtype'], result='arr',
                                   ensures=['result.ndim == recv_.ndim', 'result.rows == recv_.rows', 'result.cols == recv_.cols', 'result.dtype == dtype', 'result.writeable', 'result.fresh'])},
@@ -103,3 +104,42 @@ contract(TB, 'TypeBlocks.ufunc_axis_skipna',
     ghost_after={'out[pos] = b': [_AT_USE],
                  'out[pos] = func(array=b, axis=axis)': [_AT_USE],
                  'func(array=b, axis=axis, out=out[pos:end])': [_AT_USE]})
+
+# C03 / C04: `.values`, row extraction and every consolidation assemble one array from the blocks: block t is copied to the columns
+# [offs[t], offs[t+1]) of the output -- the same columns under which the directory lists it.  `offs` is the ghost prefix-width vector of `blocks`.
+_COPY_AT = 'assert pos == at(offs, t) and end == at(offs, t + 1)'
+contract(TB, 'TypeBlocks._blocks_to_array',
+    props=['C03', 'C04', 'C15'],
+    params=dict(blocks='list[arr]', shape='tuple[int,int]', row_dtype='opt[dtype]', row_multiple='bool'), order=[],
+    ghost_params=dict(offs='list[int]'),
+    lenient=True, lenient_protect=['pos', 'end'],
+    requires=['len(offs) == len(blocks) + 1 and at(offs, 0) == 0',
+              'forall_in(0, len(blocks), lambda k: at(offs, k + 1) == at(offs, k) + W(at(blocks, k)) and (at(blocks, k).ndim == 1 or at(blocks, k).ndim == 2))'],
+    raises={'Exception': 'maybe'},
+    n_loops=1,
+    loops={0: dict(index='t', locals=dict(pos='int'), invariant=['pos == at(offs, t)'])},
+    ghost_after={'array[pos:end] = block[:]': [_COPY_AT],
+                 'array[:, pos] = block[:]': [_COPY_AT],
+                 'array[:, pos:end] = block[:]': [_COPY_AT]})
+
+# C08 / C07: astype with a per-column dtype specifier re-cuts every 2-D block into runs of columns that get the same dtype.  Contract (tiling): the yielded
+# arrays, in order, cover every column of every block exactly once -- `cov` (ghost) counts the columns yielded so far; a run starts where the previous one
+# ended (`group_start`), the column counter `iloc` that selects the dtype is the frame-wide position of the column under inspection.
+contract(TB, 'TypeBlocks._astype_blocks_from_dtypes',
+    props=['C08', 'C07', 'C03'],
+    params=dict(self='TypeBlocks'), order=['self', 'dtypes'],
+    lenient=True, lenient_protect=['iloc', 'group_start', 'pos', 'cov'],
+    is_generator=True, yield_sort='arr',
+    requires=['Dir(self)'],
+    raises={'Exception': 'maybe'},
+    calls={'ndarray.astype': dict(assumed=True, params={}, order=['dtype'], result='arr',
+                                  ensures=['result.ndim == recv_.ndim', 'result.rows == recv_.rows', 'result.cols == recv_.cols', 'result.writeable', 'result.fresh'])},
+    ghost_init=['cov = 0'],
+    n_loops=2,
+    loops={0: dict(index='t', locals=dict(iloc='int', cov='int'), ghost_mods=['cov'],
+                   invariant=['iloc == at(self._offs, t)', 'cov == at(self._offs, t)']),
+           1: dict(index='p', locals=dict(iloc='int', cov='int', group_start='int'), ghost_mods=['cov'],
+                   invariant=['iloc == at(self._offs, t) + p', '0 <= group_start and group_start <= p', 'cov == at(self._offs, t) + group_start'])},
+    at_yield=[],
+    yield_update=['cov = cov + W(result)'],
+    at_exit=['cov == at(self._offs, len(self._blocks))'])
